@@ -15,7 +15,15 @@ import (
 // the same function. Otherwise a write can overtake markup that is still buffered: escaped text then lands in a
 // different place of the document (for example inside a tag that an earlier flush left open) than the one it was
 // escaped for.
-func bufferInOrder(c *Ctx, rule string) {
+func bufferInOrder(c *Ctx, rule string) { bufferInOrderMode(c, rule, false) }
+
+// bufferOnlyBufioWritesUnderlying: the strict form used for C10 — NO function of the runtime writes to the underlying
+// writer itself, flushed or not. bufio.Writer turns a write that accepts fewer bytes than offered without an error
+// (n < len(p), err == nil — and 0, nil) into the sticky io.ErrShortWrite; a direct io.WriteString(b.Underlying, s) only
+// sees err, and generated code ignores n, so Render would return nil for a truncated document.
+func bufferOnlyBufioWritesUnderlying(c *Ctx, rule string) { bufferInOrderMode(c, rule, true) }
+
+func bufferInOrderMode(c *Ctx, rule string, strict bool) {
 	p := c.pkg("runtime")
 	info := p.TypesInfo
 	var st *types.Named
@@ -148,6 +156,18 @@ func bufferInOrder(c *Ctx, rule string) {
 			if writing == "" {
 				nth[funcKey(p, fd)]++
 				c.ok(rule, fmt.Sprintf("%s#%d|not-a-write", key, nth[funcKey(p, fd)]), c.pos(se.Pos()), "not a write")
+				return true
+			}
+			if strict {
+				handChecked := false
+				ast.Inspect(fd.Body, func(m ast.Node) bool {
+					if x, ok := m.(*ast.SelectorExpr); ok && x.Sel.Name == "ErrShortWrite" {
+						handChecked = true
+					}
+					return true
+				})
+				c.check(handChecked, rule, key+"|"+writing+"|short-writes-detected", c.pos(se.Pos()), "the function reports io.ErrShortWrite itself",
+					funcKey(p, fd)+": the underlying writer is "+writing+" directly. Only the bufio.Writer turns a short write (n < len(p) with a nil error, or 0, nil) into io.ErrShortWrite; this write looks at err alone and generated code ignores n, so Render returns nil although the writer accepted only part of the document, and goes on writing after the hole")
 				return true
 			}
 			dom := false
